@@ -102,6 +102,7 @@ def opOf : Sexp → Option Op
       match (← namesOf ns) with
       | some l => pure (.refineNames (← pathOf h) l)
       | none => none
+  | .list [.atom "auto", h, bd] => do pure (.autoBatch (← pathOf h) (← optNat bd))
   | .list (.atom "update" :: h :: items) => do
       let its ← items.mapM fun (it : Sexp) => match it with
         | Sexp.list [k, v] => do pure ((← pathOf k), (← pvOf v))
